@@ -236,10 +236,10 @@ pub fn render(spec: &EnumSpec) -> String {
                     if mv.disabled {
                         continue;
                     }
-                    o.push_str(&format!("        obs.push(({vi}, {j}, \"try_as_{m}\".to_string(), format!(\"{{:?}}\", e.clone().try_as_{m}())));\n", vi = vi, j = j, m = m));
+                    o.push_str(&format!("        obs.push(({vi}, {j}, \"try_as_{m}\".to_string(), format!(\"{{:?}}\", Clone::clone(&e).try_as_{m}())));\n", vi = vi, j = j, m = m));
                     o.push_str(&format!("        obs.push(({vi}, {j}, \"try_as_{m}_ref\".to_string(), format!(\"{{:?}}\", e.try_as_{m}_ref())));\n", vi = vi, j = j, m = m));
                     // _mut: read, then write through every field and read the enum back
-                    o.push_str(&format!("        {{ let mut e2 = e.clone(); let r = format!(\"{{:?}}\", e2.try_as_{m}_mut()); obs.push(({vi}, {j}, \"try_as_{m}_mut\".to_string(), r));\n", vi = vi, j = j, m = m));
+                    o.push_str(&format!("        {{ let mut e2 = Clone::clone(&e); let r = format!(\"{{:?}}\", e2.try_as_{m}_mut()); obs.push(({vi}, {j}, \"try_as_{m}_mut\".to_string(), r));\n", vi = vi, j = j, m = m));
                     if !tf.is_empty() {
                         o.push_str(&format!("          if let Some(t) = e2.try_as_{m}_mut() {{\n", m = m));
                         if tf.len() == 1 {
